@@ -42,7 +42,7 @@ TIESKEL = ["JanetModel.Peg.TieSkel." + t for t in (
     "rule_if", "rule_ifnot", "rule_not", "rule_drop", "rule_only_tags", "rule_sub", "rule_accumulate", "rule_capture",
     "rule_position", "rule_constant", "rule_group", "rule_nth", "rule_error", "rule_between", "rule_to_thru", "rule_til", "rule_choice", "rule_sequence", "rule_lenprefix", "rule_split", "rule_replace", "rule_matchtime", "rule_nchar", "rule_notnchar", "rule_line",
     "rule_column", "rule_argument", "rule_literal", "rule_range", "rule_set", "rule_look", "rule_capture_num", "rule_gettag",
-    "rule_backmatch", "rule_unref",
+    "rule_backmatch", "rule_unref", "rule_readint", "rule_readint_returns",
     # the loop cases without fuel hypotheses (fuel-free meaning `Skel.Returns`), bounds from the window invariant
     "rule_to_thru_returns", "rule_til_returns", "rule_choice_returns", "rule_sequence_returns", "rule_lenprefix_returns",
     "rule_unref_returns", "rule_between_returns", "rule_split_returns", "rule_to_thru_text_bound", "rule_til_text_bound",
@@ -51,7 +51,7 @@ TIESKEL = ["JanetModel.Peg.TieSkel." + t for t in (
     "decoded_" + x for x in (
         "if", "ifnot", "not", "drop", "only_tags", "sub", "accumulate", "capture", "position", "constant", "group", "nth", "error",
         "nchar", "notnchar", "line", "column", "argument", "replace", "matchtime", "range", "look", "capture_num", "literal", "set",
-        "to", "thru", "til", "lenprefix", "between", "split", "unref", "gettag", "backmatch", "choice", "sequence"))]
+        "to", "thru", "til", "lenprefix", "between", "split", "unref", "gettag", "backmatch", "choice", "sequence", "readint"))]
 ENTRIES = ("match", "find", "findall", "replace", "replaceall")
 
 
